@@ -1145,7 +1145,7 @@ Proof.
   apply (select_sound_uids _ _ sort_up_perm sort_down_perm m inc amount ps sel Hsel).
 Qed.
 
-Theorem select_live : forall m ps amount inc,
+Theorem select_live : forall m ps amount (inc : bool),
   nonneg ps -> sumA ps < 2 ^ 63 -> 0 <= amount ->
   amount + (if inc then fees_for_proofs m ps else 0) <= sumA ps ->
   exists sel, select_proofs_to_send m ps amount inc = Ok sel.
@@ -1210,7 +1210,7 @@ Proof.
     as (_ & Hperm & Hsum & _).
   fold n in Hperm, Hsum. fold ppk in Hperm, Hsum. fold f in Hperm, Hsum.
   assert (Hcount : Z.of_nat (length (sp_send p)) = n + popcount f).
-  { rewrite (Permutation_length Hperm), app_length, Nat2Z.inj_add. reflexivity. }
+  { rewrite (Permutation_length Hperm), app_length, Nat2Z.inj_add. unfold popcount, n. lia. }
   assert (Hmint : mint_fee_for_sent m (sp_send p) = fees_for_count (n + popcount f) ppk).
   { unfold mint_fee_for_sent. rewrite Hcount. reflexivity. }
   split; [exact Hsum|]. split; [exact Hcount|]. split; [exact Hmint|].
@@ -1218,11 +1218,12 @@ Proof.
 Qed.
 
 Lemma wallet_in_range_intro : forall m ps,
-  0 <= m_active_fee m -> forallb (fun kv => 0 <=? snd kv) (m_inactive m) = true ->
+  (0 <=? m_active_fee m) = true -> forallb (fun kv => 0 <=? snd kv) (m_inactive m) = true ->
   forallb (fun p => 0 <=? p_amount p) ps = true ->
-  sumA ps < 2 ^ 63 -> raw_fee m ps + 999 < W64 -> wallet_in_range m ps.
+  (sumA ps <? 2 ^ 63) = true -> (raw_fee m ps + 999 <? W64) = true -> wallet_in_range m ps.
 Proof.
-  intros m ps Ha Hi Hp Hs Hf. split; [|split; [|split]]; try assumption.
+  intros m ps Ha Hi Hp Hs Hf. apply Z.leb_le in Ha. apply Z.ltb_lt in Hs. apply Z.ltb_lt in Hf.
+  split; [|split; [|split]]; try assumption.
   - split; [exact Ha|]. apply Forall_forall. intros kv Hkv.
     rewrite forallb_forall in Hi. apply Z.leb_le. apply Hi. exact Hkv.
   - apply Forall_forall. intros q Hq.
@@ -1290,3 +1291,51 @@ Example select_wrap_overselects :
     = Some [4; 2; 4; 8] /\
   6 + fees_for_proofs m [mkProof 4 0 0; mkProof 2 0 2; mkProof 4 0 1] <= 4 + 2 + 4.
 Proof. vm_compute. split; [reflexivity|discriminate]. Qed.
+
+(* ------------------------------------------------------------------ *)
+(* sufficiency, as far as it holds: a wallet whose proofs at the mint are all of the active keyset *)
+
+Lemma select_for_amount_live_active : forall m active a (inc : bool),
+  nonneg active -> sumA active < 2 ^ 63 -> 0 <= a ->
+  a + (if inc then fees_for_proofs m active else 0) <= sumA active ->
+  exists r, select_proofs_for_amount m [] active a inc = Ok r.
+Proof.
+  intros m active a inc Hnn Hlt Ha Hcov.
+  unfold select_proofs_for_amount. rewrite select_for_amount_unfold. unfold continue_with.
+  pose proof (fees_if_range m inc active) as Hf. unfold fees_if in Hf.
+  change (2 ^ 63) with 9223372036854775808 in *. change (2 ^ 55) with 36028797018963968 in *.
+  change (sum64 []) with 0.
+  rewrite add64_small by (unfold W64; lia). rewrite Z.add_0_r.
+  destruct (a <=? 0); [eexists; reflexivity|].
+  rewrite sub64_small by (unfold W64; lia). rewrite Z.sub_0_r.
+  destruct (select_live m active a inc Hnn Hlt Ha Hcov) as [sel Hsel].
+  unfold select_proofs_to_send in Hsel. rewrite Hsel. eexists. reflexivity.
+Qed.
+
+Theorem send_live_partial : forall m active amount (inc : bool),
+  wallet_in_range m active -> 0 <= amount < 2 ^ 62 ->
+  let f := if inc then fees_for_count (popcount amount + 1) (m_active_fee m) else 0 in
+  amount + f + fees_for_proofs m active <= sumA active ->
+  (exists sel, get_proofs_decision m [] active amount inc = DOffline sel) \/
+  (get_proofs_decision m [] active amount inc = DSwap /\
+   exists p, swap_to_send_plan m [] active amount inc = Ok p).
+Proof.
+  intros m active amount inc (Hm & Hnn & Hlt & Hfee) Hamt f Hcov.
+  assert (Hf : 0 <= f < 2 ^ 55).
+  { unfold f. destruct inc; [unfold fees_for_count; apply ceil1000_range|lia]. }
+  pose proof (fees_range m active) as Hfa.
+  change (2 ^ 62) with 4611686018427387904 in *.
+  change (2 ^ 63) with 9223372036854775808 in *. change (2 ^ 55) with 36028797018963968 in *.
+  destruct (select_for_amount_live_active m active amount inc Hnn Hlt ltac:(lia)) as [r Hr].
+  { destruct inc; lia. }
+  unfold get_proofs_decision, get_proofs_decision_gen.
+  unfold select_proofs_for_amount in Hr. rewrite Hr.
+  destruct (sum64 r =? add64 amount (fees_if m inc r)).
+  - left. eexists. reflexivity.
+  - right. split; [reflexivity|].
+    unfold swap_to_send_plan, swap_to_send_plan_gen.
+    change (Z.of_nat (length (amount_split amount))) with (popcount amount). fold f.
+    rewrite add64_small by (unfold W64; lia).
+    destruct (select_for_amount_live_active m active (amount + f) true Hnn Hlt ltac:(lia) ltac:(lia)) as [r2 Hr2].
+    unfold select_proofs_for_amount in Hr2. rewrite Hr2. eexists. reflexivity.
+Qed.
